@@ -650,6 +650,12 @@ func RunCases(in, out string) error {
 			if uerr == nil {
 				emit(execRotTo(c, id))
 			}
+		case "rotnear":
+			var c rotNearCase
+			uerr = json.Unmarshal(sc.Bytes(), &c)
+			if uerr == nil {
+				emit(execRotNear(c, id))
+			}
 		case "mat2":
 			var c matCase
 			uerr = json.Unmarshal(sc.Bytes(), &c)
